@@ -13,6 +13,7 @@ import asyncio.base_events
 import asyncio.selector_events
 import errno
 import selectors
+from fractions import Fraction
 import socket as _real_socket
 
 from .core import SInt, SBool, concrete_of
@@ -193,7 +194,9 @@ class VLoop(asyncio.selector_events.BaseSelectorEventLoop):
     def __init__(self, world):
         self.world = world
         super().__init__(FakeSelector(world))
-        self._clock_resolution = 1
+        # a timer fires when `when < now + resolution`: integer delays fire exactly at their tick, a fractional delay
+        # (e.g. asyncio.sleep(0.1)) is not lumped into the current tick
+        self._clock_resolution = Fraction(1, 1000)
         self.unhandled = []
         self.set_exception_handler(lambda loop, ctx: self.unhandled.append(ctx))
 
